@@ -1,3 +1,4 @@
+import BoltonsVerif.Generated.C18_Consts
 /-
 C18 — model of `boltons.ioutils`: `SpooledBytesIO`, `SpooledStringIO` (on
 `SpooledIOBase`) and `MultiFileReader`.
@@ -18,6 +19,7 @@ Everything else is a transliteration of the boltons methods, statement by statem
 Core Lean only.
 -/
 namespace C18
+open C18.Generated (CODECS_READLINE_SIZE CODECS_READSIZE_CAP CODECS_READSIZE_FACTOR)
 
 /-! ## 1. abstract random-access file (`io.BytesIO`, `tempfile.TemporaryFile`) -/
 
@@ -322,7 +324,9 @@ def Reader.readChunk (st : File CU) (r : Reader) (readsize : Nat) : List Char ×
      (Reader.read (Reader.read st r (some readsize)).2.1 (Reader.read st r (some readsize)).2.2 (some 1)).2)
   else Reader.read st r (some readsize)
 
-/-- the `while True` loop of `StreamReader.readline()` (size = None, keepends = True) -/
+/-- the `while True` loop of `StreamReader.readline()` (size = None, keepends = True); the first read size (72), the cap
+    of its doubling (8000) and the factor (2) are re-read from the interpreter's Lib/codecs.py on every run
+    (`C18.Generated.CODECS_*`) -/
 def rlLoop : Nat → Nat → List Char → File CU → Reader → List Char × File CU × Reader
   | 0, _, line, st, r => (line, st, r)
   | fuel + 1, readsize, line, st, r =>
@@ -341,13 +345,13 @@ def rlLoop : Nat → Nat → List Char → File CU → Reader → List Char × F
       if endsWithBrk l0 then (l0, (Reader.readChunk st r readsize).2)
       else if (Reader.readChunk st r readsize).1.isEmpty then
         (line ++ (Reader.readChunk st r readsize).1, (Reader.readChunk st r readsize).2)
-      else rlLoop fuel (if readsize < 8000 then readsize * 2 else readsize)
+      else rlLoop fuel (if readsize < CODECS_READSIZE_CAP then readsize * CODECS_READSIZE_FACTOR else readsize)
              (line ++ (Reader.readChunk st r readsize).1)
              (Reader.readChunk st r readsize).2.1 (Reader.readChunk st r readsize).2.2
     | [] =>
       if (Reader.readChunk st r readsize).1.isEmpty then
         (line ++ (Reader.readChunk st r readsize).1, (Reader.readChunk st r readsize).2)
-      else rlLoop fuel (if readsize < 8000 then readsize * 2 else readsize)
+      else rlLoop fuel (if readsize < CODECS_READSIZE_CAP then readsize * CODECS_READSIZE_FACTOR else readsize)
              (line ++ (Reader.readChunk st r readsize).1)
              (Reader.readChunk st r readsize).2.1 (Reader.readChunk st r readsize).2.2
 
@@ -358,7 +362,7 @@ def Reader.readline (st : File CU) (r : Reader) : List Char × File CU × Reader
     (l, st, match rest with
             | [only] => { r with charbuf := only, linebuf := [] }
             | _ => { r with linebuf := rest })
-  | [] => rlLoop (r.charbuf.length + st.rest.length + 2) 72 [] st r
+  | [] => rlLoop (r.charbuf.length + st.rest.length + 2) CODECS_READLINE_SIZE [] st r
 
 /-! ### the abstract code units as REAL UTF-8 bytes
 
@@ -479,10 +483,32 @@ def SStr.len (s : SStr) : Nat × SStr :=
 def SStr.seekEnd (s : SStr) (n : Nat) : SStr :=
   { SStr.traverse (s.len.1 - n + 1) (s.len.2.bseek 0) 0 (s.len.1 - n) with tell := s.len.1 - n }
 
+/-- the line ends in CR or LF (`ret[-1] in '\r\n'`) -/
+def endsCRLF (l : List Char) : Bool :=
+  match l.getLast? with
+  | some c => c = '\r' || c = '\n'
+  | none => false
+
+/-- one `self.buffer.readline().decode('utf-8')`: a line of the codec reader, which ends at EVERY
+    `str.splitlines` boundary (also VT, FF, FS, GS, RS, NEL, LS, PS); `_tell` is not touched -/
+def SStr.codecLine (s : SStr) : List Char × SStr :=
+  ((s.rd.readline s.st).1, { s with st := (s.rd.readline s.st).2.1, rd := (s.rd.readline s.st).2.2 })
+
+/-- the loop of `readline()` (after the fix):
+    `while ret and ret[-1] not in '\r\n': more = buffer.readline().decode(); if not more: break; ret += more` -/
+def SStr.rlJoin : Nat → List Char → SStr → List Char × SStr
+  | 0, ret, s => (ret, s)
+  | fuel + 1, ret, s =>
+    if ret.isEmpty || endsCRLF ret then (ret, s)
+    else if s.codecLine.1.isEmpty then (ret, s.codecLine.2)
+    else SStr.rlJoin fuel (ret ++ s.codecLine.1) s.codecLine.2
+
+/-- `readline()` (after the fix): codec lines are joined until one ends in CR / LF (or nothing is left), then
+    `self._tell = self.tell() + len(ret)`.  Every round of the loop consumes a character: `fuel` suffices. -/
 def SStr.readline (s : SStr) : List Char × SStr :=
-  ((s.rd.readline s.st).1,
-   { s with st := (s.rd.readline s.st).2.1, rd := (s.rd.readline s.st).2.2,
-            tell := s.tell + (s.rd.readline s.st).1.length })
+  ((SStr.rlJoin (s.st.data.length + 2) s.codecLine.1 s.codecLine.2).1,
+   { (SStr.rlJoin (s.st.data.length + 2) s.codecLine.1 s.codecLine.2).2 with
+       tell := s.tell + (SStr.rlJoin (s.st.data.length + 2) s.codecLine.1 s.codecLine.2).1.length })
 
 /-- `readlines()`: `StreamRecoder.readlines` = everything, re-encoded, `bytes.splitlines` -/
 def SStr.readlines (s : SStr) : List (List Char) × SStr :=
@@ -546,8 +572,9 @@ structure LineSem (α : Type) where
 def bytesSem : LineSem Byte := ⟨takeLine isNL, splitLines isNL, splitLines isNL⟩
 /-- io.StringIO(newline=''): lines end at LF, CR, CRLF -/
 def textSem : LineSem Char := ⟨firstLine false, splitL false, splitL false⟩
-/-- what SpooledStringIO implements: `readline` / iteration cut at every `str.splitlines` boundary
-    (they go through `codecs.StreamReader.readline`), `readlines` only at LF, CR, CRLF -/
+/-- what the codec reader ALONE would give (and SpooledStringIO gave before the fix): `readline` / iteration cut at
+    every `str.splitlines` boundary (`codecs.StreamReader.readline`), `readlines` only at LF, CR, CRLF.  Kept to state
+    that the joining loop of `SStr.readline` is needed (`C18.codec_line_alone_is_not_enough`). -/
 def codecSem : LineSem Char := ⟨firstLine true, splitL false, splitL true⟩
 
 def Spec.next (sem : LineSem α) (f : File α) : Out α × File α :=
@@ -611,38 +638,36 @@ def okS (f : File Char) : Op Char → Bool
 
 def validS (f : File Char) : List (Op Char) → Bool
   | [] => true
-  | op :: ops => okS f op && validS (Spec.step codecSem f op).2 ops
+  | op :: ops => okS f op && validS (Spec.step textSem f op).2 ops
 
-/-- no `str.splitlines` boundary other than CR / LF occurs -/
-def noExotic (l : List Char) : Bool := l.all (fun c => !isExotic c)
+/-! ### the other reading of "io.StringIO": the DEFAULT constructor (`newline='\n'`), lines end at LF only -/
 
-/-- line-cutting operations are applied only to texts without VT, FF, FS, GS, RS, NEL, LS, PS -/
-def plainOp (f : File Char) : Op Char → Bool
-  | .readline => noExotic f.data
-  | .readlineN _ => noExotic f.data
-  | .next => noExotic f.data
-  | .list => noExotic f.data
-  | .drain => noExotic f.data
+def isLF (c : Char) : Bool := c == '\n'
+
+/-- `io.StringIO()` (default `newline='\n'`): no translation, a line ends at LF only -/
+def lfSem : LineSem Char := ⟨takeLine isLF, splitLines isLF, splitLines isLF⟩
+
+/-- every CR is immediately followed by LF (the text uses LF and CRLF line ends only) -/
+def noLoneCR : List Char → Bool
+  | [] => true
+  | c :: cs =>
+    (if c = '\r' then (match cs with
+                       | d :: _ => decide (d = '\n')
+                       | [] => false) else true) && noLoneCR cs
+
+/-- line-cutting operations (readline, next, iteration, readlines) meet no lone CR in what is left to read -/
+def lfOp (f : File Char) : Op Char → Bool
+  | .readline => noLoneCR f.rest
+  | .readlineN _ => noLoneCR f.rest
+  | .readlines => noLoneCR f.rest
+  | .next => noLoneCR f.rest
+  | .list => noLoneCR f.rest
+  | .drain => noLoneCR f.rest
   | _ => true
 
-def plainS (f : File Char) : List (Op Char) → Bool
+def lfOnly (f : File Char) : List (Op Char) → Bool
   | [] => true
-  | op :: ops => plainOp f op && plainS (Spec.step codecSem f op).2 ops
-
-/-- tighter than `plainOp`: only what a line-cutting operation actually reads must be free of the exotic
-    boundaries — the line io.StringIO would return (readline / next), the unread rest (iteration to the end);
-    exotic characters elsewhere in the text (before the position, after the line) do not matter -/
-def plainOpT (f : File Char) : Op Char → Bool
-  | .readline => noExotic (firstLine false f.rest)
-  | .readlineN _ => noExotic (firstLine false f.rest)
-  | .next => noExotic (firstLine false f.rest)
-  | .list => noExotic f.rest
-  | .drain => noExotic f.rest
-  | _ => true
-
-def plainT (f : File Char) : List (Op Char) → Bool
-  | [] => true
-  | op :: ops => plainOpT f op && plainT (Spec.step codecSem f op).2 ops
+  | op :: ops => lfOp f op && lfOnly (Spec.step textSem f op).2 ops
 
 /-! ## 6. MultiFileReader -/
 
